@@ -2416,7 +2416,10 @@ impl Residual {
         debug_assert!(rice_params.len() == 1usize << partition_order as usize);
 
         let max_quotients: usize = find_max::<64>(&quotients) as usize;
-        let sum_quotients: usize = if max_quotients * block_size < u32::MAX as usize {
+        let sum_is_small = max_quotients
+            .checked_mul(block_size)
+            .map_or(false, |x| x < u32::MAX as usize);
+        let sum_quotients: usize = if sum_is_small {
             // If overflow-safe, use SIMD.
             wrapping_sum::<u32, 32>(&quotients) as usize
         } else {
